@@ -213,6 +213,20 @@ def _balanced(s):
     return d == 0
 
 
+def _split_filter(text):
+    """`coll if cond` -> (coll, cond) at the FIRST ` if ` outside every bracket; (text, None) when there is none.  A collection
+    that is itself a summarised comprehension (`[EACH($1 in xs if c;..)]`) keeps its own filter inside its brackets."""
+    depth = 0
+    for i, ch in enumerate(text):
+        if ch in '([{':
+            depth += 1
+        elif ch in ')]}':
+            depth -= 1
+        elif ch == ' ' and depth == 0 and text.startswith(' if ', i):
+            return text[:i], text[i + 4:]
+    return text, None
+
+
 def render_items(items):
     return ' '.join(render_item(i) for i in merge_consts(items))
 
@@ -1011,9 +1025,9 @@ class Frame(object):
                 st.env[target.id] = fuse[1]
             else:
                 vartext = self._assign_loopvars(target, st, node, self._bname(node))
-            st.bound[self._bname(node)] = colltext.split(' if ')[0]       # the collection; a fused filter stays in the EACH text
-            if ' if ' in colltext:
-                st.filters[self._bname(node)] = colltext.split(' if ', 1)[1]
+            st.bound[self._bname(node)] = _split_filter(colltext)[0]       # the collection; a fused filter stays in the EACH text
+            if _split_filter(colltext)[1] is not None:
+                st.filters[self._bname(node)] = _split_filter(colltext)[1]
         nyield = len(st.yields)
         entry_env = {k: render(v) for k, v in st.env.items() if '.' not in k and '[' not in k} if target is not None else {}
         body = self.block(node.body, st)
@@ -1683,8 +1697,8 @@ class Frame(object):
                 s2.env[g.target.id] = fuse[1]
             else:
                 vt = self._assign_loopvars(g.target, s2, node, self._bname(g))
-            st.bound[self._bname(g)] = it.split(' if ')[0]
-            s2.bound[self._bname(g)] = it.split(' if ')[0]
+            st.bound[self._bname(g)] = _split_filter(it)[0]
+            s2.bound[self._bname(g)] = _split_filter(it)[0]
             conds = []
             for c in g.ifs:
                 d = self.decide(c, s2) if self.sc.decide_filters else None
